@@ -23,37 +23,39 @@ VARIABLES fmt, items, st
 vars == <<fmt, items, st>>
 
 ----------------------------------------------------------------------------
-(* alphabets: bodies are hex strings of the body bytes *)
+(* alphabets: bodies are hex strings of the body bytes.  Macros expanded by the driver (the TLA+ strings stay  *)
+(* short and free of control characters): {TAB} a tab, {Ln} n bytes of URL-safe text (long request lines and  *)
+(* header values: beyond the 4096-byte buffers of the readers), body {Bn} / {Tn} n binary / text bytes.       *)
 
 E(method, uri, host, headers, body, tag) ==
     [method |-> method, uri |-> uri, host |-> host, headers |-> headers, body |-> body, tag |-> tag]
 
 UriPool == { E("GET", "/", "", <<>>, "", ""),
              E("GET", "/a?x=1&y=2", "", <<>>, "", "t1"),
-             E("GET", "/p%2Fq?q=%20z", "", <<>>, "", "t 2") }
+             E("GET", "/p%2Fq?q=%20z&j=%7B%22k%22%3A1%7D&ids={L5000}", "", <<>>, "", "t  2{TAB}z") }
 
 \* bodies: empty; text; "[A: 9]\n3 /z\nxyz\n" (looks like a header line and an entry); 00 ff CR LF "["
 UriPostPool == { E("POST", "/", "", <<>>, "", ""),
-                 E("POST", "/a?x=1", "", <<>>, "616263", "t1"),
-                 E("POST", "/b", "", <<>>, "5b413a20395d0a33202f7a0a78797a0a", "t 2"),
-                 E("POST", "/c", "", <<>>, "00ff0d0a5b", "") }
+                 E("POST", "/a?x=1&ids={L5000}", "", <<>>, "616263", "t1"),
+                 E("POST", "/b", "", <<>>, "5b413a20395d0a33202f7a0a78797a0a", "t  2{TAB}z"),
+                 E("POST", "/c;v=1/(d)?e=a+b&u=/p?q", "", <<>>, "{B4097}", " lead  {L4200}") }
 
 \* raw: the entry is a whole HTTP request; Content-Length is an ordinary header of the entry
 RawPool == { E("GET", "/", "h1", <<>>, "", ""),
-             E("POST", "/a?x=1&y=2", "h2:8080", <<<<"Content-Length", "3">>, <<"X-B", "v 1">>>>, "616263", "t1"),
+             E("POST", "/a?x=1&y=2&ids={L5000}", "h2:8080", <<<<"Content-Length", "3">>, <<"X-B", "v 1: [x]{L4200}">>>>, "616263", "t1"),
              \* body "5 t\nGET / HTTP/1.1\r\n\r\n" looks like a size line and a request
-             E("PUT", "/b", "h1", <<<<"A", "1">>, <<"content-length", "22">>>>, "3520740a474554202f20485454502f312e310d0a0d0a", "t 2"),
-             E("POST", "/c", "h1", <<<<"Content-Length", "5">>>>, "00ff0d0a5b", "") }
+             E("PUT", "/b", "h1", <<<<"A", "1">>, <<"content-length", "22">>>>, "3520740a474554202f20485454502f312e310d0a0d0a", "t  2{TAB}z"),
+             E("PURGE", "/c;v=1/(d)?e=a+b&u=/p?q", "h1", <<<<"Content-Length", "4097">>>>, "{B4097}", " lead  {L4200}") }
 
 \* json: body is text; "[1,2]\n{\"k\":\"v\"}" ; u-umlaut CR LF "["
 JsonPool == { E("GET", "/", "h1", <<>>, "", ""),
-              E("POST", "/a?x=1&y=2", "h2:8080", <<<<"X-B", "v 1">>, <<"a", "2">>>>, "616263", "t1"),
-              E("PUT", "/b", "h1", <<<<"A", "1">>, <<"Host", "ignored.example">>>>, "5b312c325d0a7b226b223a2276227d", "t 2"),
-              E("POST", "/c", "h1", <<>>, "c3bc0d0a5b", "t1") }
+              E("POST", "/a?x=1&y=2&ids={L5000}", "h2:8080", <<<<"X-B", "v 1: [x]{L4200}">>, <<"a", "2">>>>, "616263", "t1"),
+              E("PUT", "/b", "h1", <<<<"A", "1">>, <<"Host", "ignored.example">>>>, "5b312c325d0a7b226b223a2276227d", "t  2{TAB}z"),
+              E("PURGE", "/c;v=1/(d)?e=a+b&u=/p?q", "h1", <<>>, "{T4097}", " t1{TAB} ") }
 
 Pool(f) == CASE f = "uri" -> UriPool [] f = "uripost" -> UriPostPool [] f = "raw" -> RawPool [] f = "json" -> JsonPool
 
-HeaderLines == { HeaderItem("A", "v 1"), HeaderItem("a", "2"), HeaderItem("Host", "h.example:8080"), HeaderItem("X-B", "") }
+HeaderLines == { HeaderItem("A", "v 1: [x]{L4200}"), HeaderItem("a", "2"), HeaderItem("Host", "h.example:8080"), HeaderItem("X-B", "") }
 
 Kinds(f) == {EntryItem(e) : e \in Pool(f)} \cup {BlankItem} \cup (IF HasHeaders(f) THEN HeaderLines ELSE {})
 
@@ -67,11 +69,11 @@ SelPool(f) == CASE f = "uri" -> UriPool
                 [] f = "raw" -> {e \in RawPool : e.uri # "/c"}
                 [] f = "json" -> {e \in JsonPool : e.uri # "/c"}
 SelKinds(f) == {EntryItem(e) : e \in SelPool(f)} \cup {BlankItem}
-               \cup (IF HasHeaders(f) THEN {HeaderItem("A", "v 1")} ELSE {})
+               \cup (IF HasHeaders(f) THEN {HeaderItem("A", "v 1: [x]{L4200}")} ELSE {})
 SelFiles(f, n) == FilesOver(SelKinds(f), n)
 
 \* chosencases settings: none, one tag, two tags (one with a space), the empty tag, a tag matching nothing
-ChosenSets == { <<>>, <<"t1">>, <<"t1", "t 2">>, <<"">>, <<"t">> } \cup (IF Quick THEN {} ELSE { <<"zz">> })
+ChosenSets == { <<>>, <<"t1">>, <<"t1", "t  2{TAB}z">>, <<"">>, <<"t">> } \cup (IF Quick THEN {} ELSE { <<"zz">> })
 Limits  == IF Quick THEN {0, 2, 5} ELSE {0, 1, 2, 5}
 Passes  == {0, 1, 2}
 
@@ -158,8 +160,10 @@ LayFor(f) == IF f = "json" THEN {[crlf |-> cw[1], ws |-> cw[2], sep |-> TRUE, fi
 
 Conf(lim, pas, pre, chs, take) == [limit |-> lim, passes |-> pas, preload |-> pre, chosen |-> chs, take |-> take]
 
+\* decoding is the same preloaded (LoadAmmo reads the whole file before the first request is built, so an entry that
+\* shares state with later lines shows deterministically): half of the layouts of every file are read with preload
 C07Cases(f) == { [fmt |-> f, items |-> fl, lay |-> l,
-                  conf |-> Conf(0, 0, FALSE, <<>>, 2 * NumEntries(fl) + 1)] : fl \in Files(f, MaxItems), l \in LayFor(f) }
+                  conf |-> Conf(0, 0, l.crlf # l.final, <<>>, 2 * NumEntries(fl) + 1)] : fl \in Files(f, MaxItems), l \in LayFor(f) }
 
 \* thorough: two-item files with a DIFFERENT layout per item (same final / style, which belong to the file)
 C07Mixed(f) == IF Quick THEN {} ELSE
